@@ -69,7 +69,7 @@ func H_C09_seq(which int) {
 	vScriptRounds(s, items)
 	fail := vInt(0, s*nbytes-1)
 	kind := vInt(0, 2)
-	src := &vStream{failAt: fail, failErr: vFailErr(kind)}
+	src := &vStream{failAt: fail, failErr: vFailErr(kind), failOnce: vBool()}
 	ok, err := wfRun(which, src)
 	vAssert(!ok, "failing source: verdict false")
 	vAssert(err != nil, "failing source: non-nil error")
@@ -95,7 +95,7 @@ func H_C09_fast(which int) {
 	vScriptRounds(s, items)
 	fail := vInt(0, s*nbytes-1)
 	kind := vInt(0, 2)
-	src := &vStream{failAt: fail, failErr: vFailErr(kind)}
+	src := &vStream{failAt: fail, failErr: vFailErr(kind), failOnce: vBool()}
 	before := vGoroutines()
 	ok, err := vGuard(which, src)
 	vAssert(!ok, "failing source: verdict false")
